@@ -122,6 +122,54 @@ func VH_stree_History() {
 	}
 }
 
+// vSpine builds a degenerate tree with a spine of n nodes: kind 0 left spine, 1 right
+// spine, 2 zig-zag, 3 right spine whose every node also has a left leaf (a "comb").
+func vSpine(n, kind int) *node[vKT] {
+	if n == 0 {
+		return nil
+	}
+	nd := &node[vKT]{}
+	child := vSpine(n-1, kind)
+	switch {
+	case kind == 3:
+		nd.right = child
+		if child != nil {
+			nd.left = &node[vKT]{}
+		}
+	case kind == 0, kind == 2 && n%2 == 0:
+		nd.left = child
+	default:
+		nd.right = child
+	}
+	return nd
+}
+
+// VH_stree_Deep: degenerate (spine) trees far deeper than any balanced small
+// tree; contents, iteration, clone and one removal/insertion at the far end.
+func VH_stree_Deep() {
+	n := vCase("n")
+	root := vSpine(n, vCase("kind"))
+	var ref []vKT
+	vFill(root, &ref)
+	t := vMkTree(root, 1000, n, n)
+	vCover("deep")
+	vCheckTree(t, ref, "deep tree")
+	c := t.Clone()
+	vCheckTree(c, ref, "clone of a deep tree")
+	cnt := 0
+	t.Inorder(func(vKT) bool { cnt++; return cnt < n-1 })
+	vAssert(cnt == n-1, "stoppable iteration on a deep tree")
+	var after []vKT
+	for k := range t.InorderAfter(ref[n/2]) {
+		after = append(after, k)
+	}
+	vAssert(vSameSeq(after, ref[n/2:]), "InorderAfter on a deep tree")
+	got, ok := t.Get(ref[n-1])
+	vAssert(ok && got.Tag == ref[n-1].Tag, "Get of the deepest key")
+	vAssert(t.Remove(ref[0]), "Remove of the smallest key")
+	vCheckTree(t, ref[1:], "deep tree after Remove")
+}
+
 func vIntCmp(a, b int) int {
 	if a < b {
 		return -1
